@@ -37,7 +37,28 @@ pub fn cases(ctx: &Ctx) -> Vec<WCase> {
             s.specs.push(SpecCfg::new(0));
         }
         s.settle_ms = 1000;
+        // extra bare polls between the advancing ticks: the call may then follow a poll that has just delivered inputs
+        // contradicting a prediction, with no advance_frame in between
+        let mut c = NodeCfg::default();
+        c.polls_per_tick = rr.pick(&[1u64, 2, 4, 8]);
+        s.nodes = vec![c, NodeCfg::default()];
         out.push(wcase(format!("api-{i}"), s));
+    }
+    // a paused game: the survivor only polls from shortly before the death until after the timeout, so the dying peer's
+    // last packets AND the timeout are handled by bare polls, with mispredictions still uncorrected; then it plays on
+    for i in 0..ctx.n(3000, 150_000) {
+        let mut rr = r.fork(0x3000_0000 + i as u64);
+        let mut s = gen_death2(&mut rr, 500);
+        let at = s.kill.as_ref().unwrap().at_ms;
+        let mut c = NodeCfg::default();
+        c.polls_per_tick = rr.pick(&[1u64, 2, 4]);
+        c.poll_only.push((at.saturating_sub(rr.range(0, 150)), at + s.timeout_ms + rr.range(60, 600)));
+        s.nodes = vec![c, NodeCfg::default()];
+        if rr.chance(0.4) {
+            s.specs.push(SpecCfg::new(0));
+        }
+        s.settle_ms = 1500;
+        out.push(wcase(format!("paused-{i}"), s));
     }
     out
 }
@@ -108,6 +129,13 @@ pub fn run_case(c: &WCase) -> Outcome {
                 out.inconclusive("the connection had already timed out before the peer died (short timeout on a lossy link)");
                 return;
             }
+            // ... or between two packets of the dying peer: with a timeout as short as the gaps of a slow-cadence stream
+            // (lockstep over a 40 ms link sends every ~100 ms) the survivor times the peer out while packets are still on
+            // their way; whether such a timeout matches a real silence is C12's business (per-silence oracle)
+            if evs.iter().any(|(t, e)| matches!(e, Ev::Disconnected { .. }) && *t <= t_rx) {
+                out.inconclusive("the connection timed out between two packets of the dying peer (timeout as short as the stream's gaps)");
+                return;
+            }
             let after_sync: Vec<&(u64, Ev)> = evs.iter().copied().filter(|(t, _)| *t > t_rx).collect();
             let ints: Vec<&(u64, Ev)> = after_sync.iter().copied().filter(|(_, e)| matches!(e, Ev::Interrupted { .. })).collect();
             let discs: Vec<&(u64, Ev)> = after_sync.iter().copied().filter(|(_, e)| matches!(e, Ev::Disconnected { .. })).collect();
@@ -159,6 +187,12 @@ pub fn run_case(c: &WCase) -> Outcome {
                 return;
             }
             // keeps advancing on its own: one frame per tick
+            // (a survivor that was only polling starts to advance again when its pause ends)
+            let td = surv.cfg.poll_only.iter().map(|(_, b)| T0 + b * MS).fold(td, u64::max);
+            if w.end_t < td + 1100 * MS {
+                out.inconclusive("run ended before the survivor's progress could be judged");
+                return;
+            }
             let got = w.frames_between(0, td + 50 * MS, td + 1050 * MS);
             let target_reached = surv.reached_target_at.is_some_and(|t| t < td + 1050 * MS);
             if !target_reached {
@@ -224,7 +258,7 @@ pub fn check(ctx: &Ctx) -> i32 {
     let res = par_run(ctx, &cs, &|c: &WCase| c.id.clone(), &run_case);
     let meta = Meta {
         level: "fault_enumeration",
-        rule: "two-peer sessions (1+1, 2+2, 2+1, 1+2 players), rollback and lockstep (windows 0,1,2,3,8,12), delays 0..=3, sparse on/off, both predictors, notify delay {100,300,500,1000} ms, timeout = notify + {0,200,1500} ms, lossy links; the remote is killed at a random moment 1.5-3 s after start (after all sessions are Running) and each of its in-flight packets is dropped with probability {0,0.5,1}; with and without a spectator; plus explicit disconnect_player calls (with a repeated call) at random moments. With T_rx = time the survivor's socket last handed over a packet of the dead peer: NetworkInterrupted must fall in [T_rx+notify, +slack] with field timeout-notify, Disconnected in [T_rx+timeout, +slack] exactly once and nothing after it for that address (slack = one tick period + tick jitter + 2 ms); the survivor then keeps advancing (at least a third of its ticks over the next second: sparse saving with window 1 legitimately advances every other tick); in its final timeline the dropped players have the real inputs up to the last received frame and (default, Disconnected) afterwards, including frames simulated earlier with predictions; spectators agree with the host's final timeline. Non-trivial: a player is disconnected at the end and a corrective rollback was needed, or the survivor stalled, or lockstep. Distinct: configuration + trace hash.".into(),
+        rule: "two-peer sessions (1+1, 2+2, 2+1, 1+2 players), rollback and lockstep (windows 0,1,2,3,8,12), delays 0..=3, sparse on/off, both predictors, notify delay {100,300,500,1000} ms, timeout = notify + {0,200,1500} ms, lossy links; the remote is killed at a random moment 1.5-3 s after start (after all sessions are Running) and each of its in-flight packets is dropped with probability {0,0.5,1}; with and without a spectator; plus explicit disconnect_player calls (with a repeated call) at random moments, the caller polling 1/2/4/8 times per frame; plus a paused-game family in which the survivor only polls (no advance_frame) from up to 150 ms before the death until after the timeout and then plays on. With T_rx = time the survivor's socket last handed over a packet of the dead peer: NetworkInterrupted must fall in [T_rx+notify, +slack] with field timeout-notify, Disconnected in [T_rx+timeout, +slack] exactly once and nothing after it for that address (slack = one tick period + tick jitter + 2 ms); the survivor then keeps advancing (at least a third of its ticks over the next second: sparse saving with window 1 legitimately advances every other tick); in its final timeline the dropped players have the real inputs up to the last received frame and (default, Disconnected) afterwards, including frames simulated earlier with predictions; spectators agree with the host's final timeline. Non-trivial: a player is disconnected at the end and a corrective rollback was needed, or the survivor stalled, or lockstep. Distinct: configuration + trace hash.".into(),
         assumptions: std_assumptions(),
         floor_nontrivial: if ctx.quick() { 300 } else { 8000 },
         exhaustive: None,
